@@ -144,7 +144,11 @@ class Judge:
         else:
             stdout_fault = fault['kind'] in ('EPIPE', 'ENOSPC')
             k_eff = names.index(fault['file_name'])
-            if any(o is None for o in outs):
+            if fault['kind'] == 'BADUTF8':
+                # not a text of the domain: only "files before it are complete and in order" is demanded
+                before = b''.join(o or b'' for o in outs[:k_eff])
+                ok = sink.startswith(before) if all(o is not None for o in outs[:k_eff]) else True
+            elif any(o is None for o in outs):
                 # a text on which the tree itself raises: only the files before it define expected output
                 upto = first_exc
                 outs2 = outs[:upto]
@@ -178,7 +182,7 @@ def corpus_scenarios(corp):
     """Systematic part: every corpus text x one renderer (rotating), single-file, all channels."""
     out = []
     for i, t in enumerate(corp):
-        rid = W.RENDERER_IDS[i % len(W.RENDERER_IDS)]
+        rid = W.BUNDLED_IDS[i % len(W.BUNDLED_IDS)]
         out.append({'R': rid, 'texts': [t], 'names': ['f0.md'], 'fault': None, 'seed': i, 'batch': 'corpus', 'index': i,
                     'knobs': {'bufsize': [4, 16, 8192][i % 3], 'read_chunk': [1, 3, 8192][i % 3], 'write_chunk': [1, 5, 8192][(i // 3) % 3],
                               'out_bufsize': [1, 64, 8192][(i // 9) % 3], 'locale': G.LOCALES[i % 4], 'stdout_encoding': G.STDOUT_ENCODINGS[i % 5],
@@ -431,7 +435,7 @@ def run_check(tier, seed):
     known = findings_mod.load()
     by_class = {}
     for v in sorted(viols, key=lambda v: (len(json.dumps(v['scenario'])), v['batch'], v['index'])):
-        by_class.setdefault(v['klass'] + '|' + str(v['failing'].get('R')), []).append(v)
+        by_class.setdefault(v['klass'], []).append(v)
     reported, known_lines = [], []
     for klass, vs in sorted(by_class.items()):
         v, ok = minimise(judge, vs[0])
